@@ -16,7 +16,7 @@ func checkC16(p *Prog, r *Result, tier string) {
 	r.Rule("C16.R1", "canonicalise before index/store: on every path of every insertion entry the schema case transforms run after the object's Transform and before Validate, the accepting insertion, the cache/pending put and the object write (shared with C15.R1, re-evaluated here)", 6)
 	r.Rule("C16.R2", "every search value is canonicalised: in the search dispatcher both evaluators are called only after the call that applies the field's case transform to the value; And/Or/Operation reach the evaluators only through the dispatcher", 3)
 	r.Rule("C16.R3", "the transformer list is complete: Transformers() filters all descriptors by Transformer(), whose truth table is upper || lower; the schema's list is assigned from it before publication (C04.R4)", 2)
-	r.Rule("C16.R4", "tag table: the struct-tag words index, unique, lower, upper set exactly the constraint whose JSON key equals the word (unique also sets index); no other word sets anything", 5)
+	r.Rule("C16.R4", "tag table: the struct-tag words index, unique, lower, upper set exactly the constraint whose JSON key equals the word (unique also sets index); no other word sets anything; every ordered pair of words sets the union of what each sets (no word resets what an earlier one set)", 5)
 	r.Rule("C16.R5", "only the two standard mappings: inside the field transform every strings.ToUpper call is guarded by the Upper flag and every strings.ToLower call by the Lower flag, and nothing else rewrites the value", 2)
 	r.NotDecided = []string{"Unicode idempotence and ordering of strings.ToUpper/ToLower (standard library)", "named string types (a 'type S string' field with a case tag panics in v.Interface().(string): a property of the struct definition)"}
 	c := computeClosures(p)
@@ -120,6 +120,11 @@ func checkC16(p *Prog, r *Result, tier string) {
 			okLoop := false
 			for _, lp := range naturalLoops(ts) {
 				callsPred, appends := false, false
+				inLoop := map[*ssa.BasicBlock]bool{}
+				for _, b := range lp.blocks {
+					inLoop[b] = true
+				}
+				onlyPred := true
 				for _, b := range lp.blocks {
 					for _, in := range b.Instrs {
 						if call, ok := in.(*ssa.Call); ok {
@@ -128,18 +133,32 @@ func checkC16(p *Prog, r *Result, tier string) {
 							}
 							if bi, ok := call.Call.Value.(*ssa.Builtin); ok && bi.Name() == "append" {
 								appends = true
+								// the only condition between the loop header and the append is the predicate itself
+								for d := b.Idom(); d != nil && inLoop[d] && d != lp.header; d = d.Idom() {
+									ifi, ok := d.Instrs[len(d.Instrs)-1].(*ssa.If)
+									if !ok {
+										continue
+									}
+									cond := ifi.Cond
+									if u, ok := cond.(*ssa.UnOp); ok && u.Op == token.NOT {
+										cond = u.X
+									}
+									if pc, ok := cond.(*ssa.Call); !ok || pc.Call.StaticCallee() != tf {
+										onlyPred = false
+									}
+								}
 							}
 						}
 					}
 				}
-				if callsPred && appends {
+				if callsPred && appends && onlyPred {
 					okLoop = true
 				}
 			}
 			if okLoop {
 				r.Report("C16.R3", FuncName(ts), "filters all descriptors by Transformer()", Discharged, "", p.Pos(ts.Pos()), nil, true)
 			} else {
-				r.Report("C16.R3", FuncName(ts), "filters all descriptors by Transformer()", Violated, "the transformer list is not built by filtering every descriptor with Transformer()", p.Pos(ts.Pos()), nil, true)
+				r.Report("C16.R3", FuncName(ts), "filters all descriptors by Transformer()", Violated, "the transformer list is not built by filtering every descriptor with Transformer() and nothing else: a descriptor with a case constraint that another condition keeps out of the list is never transformed on insertion (while search values still are)", p.Pos(ts.Pos()), nil, true)
 			}
 		}
 	}
@@ -217,12 +236,29 @@ func checkTagTable(p *Prog, r *Result, rule string) {
 	for k := range keys {
 		words = append(words, k)
 	}
+	single := append([]string(nil), words...)
+	sort.Strings(single)
 	words = append(words, "primary", "")
 	sort.Strings(words)
+	// ordered pairs: the words of a tag are independent of each other and of their order
+	for _, w1 := range single {
+		for _, w2 := range single {
+			if w1 != w2 {
+				words = append(words, w1+","+w2)
+			}
+		}
+	}
 	for _, w := range words {
 		env := &EvalEnv{P: p}
 		env.CallHook = func(callee *ssa.Function, args []AV) ([]AV, bool) {
 			if callee != nil && callee.Object() != nil && callee.Object().Pkg() != nil && callee.Object().Pkg().Path() == "strings" && callee.Name() == "Split" {
+				if args[0].K == avStr && len(args) > 1 && args[1].K == avStr && args[1].S == "," {
+					var el []AV
+					for _, part := range strings.Split(args[0].S, ",") {
+						el = append(el, avS(part))
+					}
+					return []AV{{K: avSlice, Elems: el}}, true
+				}
 				return []AV{{K: avSlice, Elems: []AV{args[0]}}}, true
 			}
 			return nil, false
@@ -236,6 +272,9 @@ func checkTagTable(p *Prog, r *Result, rule string) {
 		res, out := env.Eval(fn, []AV{avS("F"), avS(w), {K: avIface, Dyn: "reflect.Type", Inner: &AV{K: avOpaque, S: "T"}}}, 0)
 		r.Evaluations++
 		construct := fmt.Sprintf("tag word %q", w)
+		if strings.Contains(w, ",") {
+			construct = fmt.Sprintf("tag words %q", w)
+		}
 		if out != "return" || len(res) != 1 || res[0].K != avStruct {
 			r.Report(rule, FuncName(fn), construct, Undecided, "finite evaluation failed: "+out+" "+env.Why, p.Pos(fn.Pos()), nil, true)
 			continue
@@ -262,10 +301,12 @@ func checkTagTable(p *Prog, r *Result, rule string) {
 			}
 		}
 		want := map[string]bool{}
-		if _, isKey := keys[w]; isKey {
-			want[w] = true
-			if w == "unique" {
-				want["index"] = true
+		for _, part := range strings.Split(w, ",") {
+			if _, isKey := keys[part]; isKey {
+				want[part] = true
+				if part == "unique" {
+					want["index"] = true
+				}
 			}
 		}
 		if fmt.Sprint(sortedKeys(set)) == fmt.Sprint(sortedKeys(want)) {
